@@ -78,6 +78,22 @@ func c02Judge(orig signedTok, mutated []byte) (msg string, class string) {
 		}
 		return fmt.Sprintf("altered token (%s) decodes and VERIFIES with the signer's key\n  original: %x\n  altered:  %x", what, orig.Tok, mutated), "verified"
 	}
+	// nothing a relying party may do with the decoded Evidence in between
+	// (re-attach the claims it exposes, read it, encode its claims, try other
+	// keys) turns the altered token into one that verifies
+	if ev.Claims != nil {
+		_ = ev.SetClaims(ev.Claims)
+	}
+	_, _ = ev.MarshalJSON()
+	_ = ev.GetInstanceID()
+	if ev.Claims != nil {
+		_, _ = psatoken.EncodeClaimsToCBOR(ev.Claims)
+		_ = ev.Claims.Validate()
+	}
+	_ = ev.Verify(keyFor(icose.EdDSA, 6).Pub)
+	if ev.Verify(orig.Key.Pub) == nil {
+		return fmt.Sprintf("altered token does not verify at first, but VERIFIES after the decoded Evidence was used (SetClaims of its own claims, MarshalJSON, GetInstanceID, encode, Verify with another key)\n  original: %x\n  altered:  %x", orig.Tok, mutated), "verified"
+	}
 	return "", "decoded-verify-failed"
 }
 
@@ -295,7 +311,7 @@ func TestC02_Splices(t *testing.T) {
 			if rerr != nil || n.Kind != icbor.KMap {
 				t.Fatalf("VERIF-INFRA: own token part does not parse: %v", rerr)
 			}
-			how := rapid.SampledFrom([]string{"value-long-head", "key-long-head", "map-long-head", "indefinite-map", "permute"}).Draw(t, "how")
+			how := rapid.SampledFrom([]string{"value-long-head", "key-long-head", "map-long-head", "indefinite-map", "permute", "permute", "extra-unknown-key", "extra-unknown-key"}).Draw(t, "how")
 			switch how {
 			case "value-long-head", "key-long-head":
 				i := rapid.IntRange(0, len(n.Pairs)-1).Draw(t, "pair")
@@ -320,6 +336,9 @@ func TestC02_Splices(t *testing.T) {
 				}
 			case "indefinite-map":
 				n = n.WithIndef()
+			case "extra-unknown-key":
+				// decodes to the same claims (an unknown entry is ignored)
+				n.Pairs = append(n.Pairs, icbor.P(icbor.I(rapid.SampledFrom([]int64{-70001, 99, 7000, -1}).Draw(t, "unk")), rapid.SampledFrom([]*icbor.Node{icbor.U(1), icbor.Tstr("x"), icbor.Bstr([]byte{1, 2})}).Draw(t, "unkv")))
 			default:
 				if len(n.Pairs) < 2 {
 					n = n.WithHead(2)
